@@ -5,7 +5,7 @@ use buffer_redux::BufReader;
 use byteorder::{BigEndian, ByteOrder};
 use nom::{
     branch::alt,
-    bytes::streaming::{tag, take, take_until, take_until1},
+    bytes::streaming::{tag, take, take_until},
     character::streaming::{digit1, line_ending, not_line_ending, space0},
     combinator::{complete, map, map_res, opt, success, value},
     multi::many0,
@@ -190,31 +190,29 @@ fn armor_header_line(i: &[u8]) -> IResult<&[u8], BlockType> {
 }
 
 /// Parses a single key value pair, for the header.
+///
+/// A header is a single line of the form `key: value` or `key:` (empty value).
+/// The key ends at the first `": "` of the line, or at a `:` that ends the line.
 fn key_value_pair(i: &[u8]) -> IResult<&[u8], (&str, &str)> {
-    let (i, key) = map_res(
-        alt((
-            complete(take_until1(":\r\n")),
-            complete(take_until1(":\n")),
-            complete(take_until1(": ")),
-        )),
-        str::from_utf8,
-    )
-    .parse(i)?;
+    let (rest, line) = terminated(not_line_ending, line_ending).parse(i)?;
 
-    // consume the ":"
-    let (i, _) = tag(":")(i)?;
-    let (i, t) = alt((tag(" "), line_ending)).parse(i)?;
+    let split = line
+        .windows(2)
+        .position(|w| w == b": ")
+        .map(|p| (p, p + 2))
+        .or_else(|| (line.last() == Some(&b':')).then(|| (line.len() - 1, line.len())));
 
-    let (i, value) = if t == b" " {
-        let (i, value) = map_res(not_line_ending, str::from_utf8).parse(i)?;
-        let (i, _) = line_ending(i)?;
-        (i, value)
-    } else {
-        // empty value
-        (i, "")
+    let fail = || nom::Err::Error(nom::error::Error::new(i, nom::error::ErrorKind::TakeUntil));
+    let Some((key_end, value_start)) = split else {
+        return Err(fail());
     };
+    if key_end == 0 {
+        return Err(fail());
+    }
+    let key = str::from_utf8(&line[..key_end]).map_err(|_| fail())?;
+    let value = str::from_utf8(&line[value_start..]).map_err(|_| fail())?;
 
-    Ok((i, (key, value)))
+    Ok((rest, (key, value)))
 }
 
 /// Parses a list of key value pairs.
